@@ -3,7 +3,7 @@ from __future__ import annotations
 
 import importlib
 
-from common import Ctx, hx, run_model_parallel
+from common import Ctx, Timeout, hx, run_model_parallel, time_limit
 from ref import tlv8 as ref
 
 PROP = "C07"
@@ -79,9 +79,18 @@ def impl_encode(tlv, items):
     return tlv.encode(*args)
 
 
+_TIMEOUTS = [0]
+
+
 def impl_decode(tlv, data):
+    if _TIMEOUTS[0] >= 2:  # already shown not to terminate: do not burn the time budget
+        return {"err": "SKIPPED-AFTER-TIMEOUTS"}
     try:
-        d = tlv.decode(data)
+        with time_limit(3):
+            d = tlv.decode(data)
+    except Timeout:
+        _TIMEOUTS[0] += 1
+        return {"err": "DOES-NOT-TERMINATE"}
     except Exception as ex:  # noqa: BLE001
         return {"err": type(ex).__name__}
     return {"ok": [[k[0], hx(v)] for k, v in d.items()]}
@@ -96,6 +105,7 @@ def oracle_encode(ctx: Ctx, tlv, items, enc: bytes):
             "C07:encode-differs-from-spec",
             f"tlv.encode of value lengths {lens} is not the TLV8 byte string (got {len(enc)} bytes, spec {len(want)})",
             {"kind": "encode", "items": [[t, hx(v)] for t, v in items]},
+            size=sum(lens) + len(lens),
         )
         return
     back = impl_decode(tlv, enc)
@@ -118,10 +128,21 @@ def oracle_encode(ctx: Ctx, tlv, items, enc: bytes):
             "C07:roundtrip-mismatch",
             f"decode(encode(items)) differs from the merged items for value lengths {lens}",
             {"kind": "encode", "items": [[t, hx(v)] for t, v in items]},
+            size=sum(lens) + len(lens),
         )
 
 
 def oracle_decode(ctx: Ctx, data: bytes, got):
+    if got.get("err") == "SKIPPED-AFTER-TIMEOUTS":
+        return
+    if got.get("err") == "DOES-NOT-TERMINATE":
+        ctx.fail(
+            "C07:decode-does-not-terminate",
+            f"tlv.decode did not return within 5 s on a {len(data)}-byte input",
+            {"kind": "decode", "data": hx(data)},
+            size=len(data),
+        )
+        return
     try:
         recs = ref.records(data)
     except ValueError:
@@ -133,6 +154,7 @@ def oracle_decode(ctx: Ctx, data: bytes, got):
                 "C07:wellformed-misassigned",
                 f"decode of a well-formed {len(data)}-byte input assigns bytes wrongly or fails: {str(got)[:80]}",
                 {"kind": "decode", "data": hx(data)},
+                size=len(data),
             )
     # malformed input: any result or a raised error is acceptable (termination is what matters,
     # and the call returned)
